@@ -369,8 +369,10 @@ def _placements(trace, rng, exhaustive, cap):
             # well-formed on their own ("DFA", "{}")
             for arg in (2, 3, 4):
                 res.append([{"io": idx, "kind": "crash", "arg": arg}])
-        elif kind == "close":
+        elif kind in ("close", "fsync", "rename", "unlink"):
             res.append([{"io": idx, "kind": "crash"}])
+            if kind != "close":
+                res.append([{"io": idx, "kind": "error", "errno": "EIO"}])
         elif kind == "read":
             res.append([{"io": idx, "kind": "error", "errno": "EIO"}])
         elif kind == "mkdir":
